@@ -6,7 +6,9 @@ patch=$1; shift
 cd /repo || exit 2
 if ! git diff --quiet; then echo "repo has uncommitted changes; refusing"; exit 2; fi
 git apply "$patch" || { echo "patch does not apply"; exit 2; }
-trap 'git -C /repo checkout -- . ' EXIT
+# evidence files describe the unchanged tree: keep them out of mutant runs
+tmpev=$(mktemp -d /tmp/gocv_ev.XXXXXX); cp -a /verif/evidence/. $tmpev/
+trap 'git -C /repo checkout -- . ; cp -a $tmpev/. /verif/evidence/; rm -rf $tmpev' EXIT
 for p in "$@"; do
   echo "=== check $p with $(basename $(dirname $patch))/$(basename $patch)"
   (cd /verif && bin/gocv check "$p" 2>&1 | grep -E "^VIOLATION|^KNOWN|^gocv:" | cut -c1-260)
